@@ -61,6 +61,24 @@ class PushP:
 
     def resumeProducing(self):
         self._sig("resume")
+        if getattr(self, "registers_on_resume", False):
+            # an application that starts its next transfer (on another subchannel) as soon as this one may go on:
+            # a producer is registered from inside another producer's turn
+            self.registers_on_resume = False
+            drv = self.drv
+            side = drv.side_of(self.proto)
+            free = [p for p in drv.protos(side) if drv.alive(p) and not any(q.proto is p and q.registered for q in drv.producers)]
+            if free:
+                newp = PushP(drv, drv.rng.choice(free))
+                drv.producers.append(newp)
+                drv.registered_inside_a_turn += 1
+                try:
+                    newp.proto.transport.registerProducer(newp, True)
+                    if newp.last != "pause":
+                        drv.produce(newp)
+                except Exception as e:
+                    newp.registered = False
+                    drv.api_errors.append(("registerProducer(from inside resumeProducing)", newp.proto.name, type(e).__name__, repr(e)[:120]))
         # a push producer that has data writes as soon as it is allowed to
         self.drv.produce(self)
 
@@ -221,6 +239,7 @@ class Driver:
         self.unhashable_tried = 0
         self.pauses_in_made = 0
         self.plain_pull = 0
+        self.registered_inside_a_turn = 0
 
     def side_of(self, proto):
         return proto.name[0]
@@ -308,6 +327,7 @@ class Driver:
                         prod = (QueuePushP if rng.random() < 0.2 else PushP)(self, p, ignores=rng.random() < 0.15)
                         prod.leaves_on_pause = rng.random() < 0.12
                         prod.evicts_on_pause = rng.random() < 0.15
+                        prod.registers_on_resume = rng.random() < 0.3
                         self.falsy_producers += int(isinstance(prod, QueuePushP))
                         streaming = True
                     else:
@@ -601,8 +621,10 @@ def run_case(spec):
                         continue
                     reg_from = other.signals[0][0] if other.signals else None
                     cont = other.registered or (other.unregistered_at is not None and other.unregistered_at > s)
-                    waiting = any(w == "pause" and st <= s0 for (st, w) in other.signals) and cont and reg_from is not None and reg_from <= s0
-                    last_before = [w for (st, w) in other.signals if st <= s0]
+                    # (strictly before: a producer that was registered, and paused, from inside this very turn joins the end
+                    #  of the line behind the producer whose turn it is - it was not waiting when that turn was given)
+                    waiting = any(w == "pause" and st < s0 for (st, w) in other.signals) and cont and reg_from is not None and reg_from < s0
+                    last_before = [w for (st, w) in other.signals if st < s0]
                     if waiting and last_before and last_before[-1] == "pause" and drv.alive(other.proto):
                         fairness = "%s: producer on %s got two turns (steps %d, %d) while the paused producer on %s got none" % (side, q.proto.name, s0, s, other.proto.name)
             lastpos[q] = i
@@ -666,7 +688,7 @@ def run_case(spec):
             "counters": {"probes": stats["probes"], "producer_pauses": pauses, "producer_resumes": resumes,
                          "producers": len(drv.producers), "pull_producers": sum(q.kind == "pull" for q in drv.producers), "pull_producers_finished": pull_finished,
                          "inbound_pause_calls": drv.inbound_calls, "pauses_inside_dataReceived": drv.pauses_in_data, "cuts": stats["cuts"], "notrans_seen": len(MON.notrans),
-                         "log_errors_seen": len(MON.errors), "producers_that_are_false": drv.falsy_producers, "producers_left_inside_pause": drv.left_on_pause, "producers_unregistered_by_another_ones_pause": getattr(drv, "evicted_on_pause", 0), "pauses_after_connectionLost": drv.late_pauses, "unregisters_in_connectionLost": drv.unregisters_in_connectionLost, "unhashable_producers_tried": drv.unhashable_tried, "pauses_inside_connectionMade": drv.pauses_in_made, "pull_producers_declaring_IProducer_only": drv.plain_pull},
+                         "log_errors_seen": len(MON.errors), "producers_that_are_false": drv.falsy_producers, "producers_left_inside_pause": drv.left_on_pause, "producers_unregistered_by_another_ones_pause": getattr(drv, "evicted_on_pause", 0), "pauses_after_connectionLost": drv.late_pauses, "unregisters_in_connectionLost": drv.unregisters_in_connectionLost, "unhashable_producers_tried": drv.unhashable_tried, "pauses_inside_connectionMade": drv.pauses_in_made, "producers_registered_from_inside_another_ones_turn": drv.registered_inside_a_turn, "pull_producers_declaring_IProducer_only": drv.plain_pull},
             "sets": {"logged_errors": sorted({e[0] + ":" + e[3] for e in MON.errors})},
             "sample": {"spec": spec, "buffer_size": r.default_buffer_size,
                        "producers": [(q.proto.name, q.kind, [w for (_, w) in q.signals][:10]) for q in drv.producers][:5],
